@@ -95,6 +95,7 @@ def check(ctx, run):
     run.rule("R12", "parameter values compare by mathematical value: the comparison equals() selects for every ordered pair of integer tags, folded over boundary values and their 2^32/2^64 aliases (shared with C09.R1-R3)", floor=100, exhaustive=True)
     run.rule("R11", "actualCall routing folded over (previous call pending, enabled, tracing, ignored): the previous call is retired first on every route, then disabled -> ignored call, tracing -> trace, ignored name -> ignored call, else a checked call", floor=16, exhaustive=True)
     run.rule("R10", "no stale per-call marks: an expectation dropped from a call's candidate list is clean before it can be a candidate again (reset where it is dropped, or all candidates reset when a call collects them)", floor=2)
+    run.rule("R13", "expectation predicates folded over their truth tables: relatesToObject = (no specific object expected) or (expected object == object of the call, NULL being an object like any other); onObject records (specific, object, not yet passed); isMatchingActualCall = parameters match and passed to object; isMatchingActualCallAndFinalized = that and (no ignored parameters or finalized); relatesTo compares names by content", floor=5, exhaustive=True)
     run.rule("R9", "matching-state reset coverage: every field or per-parameter flag set by the per-call marker methods is reset by resetActualCallMatchingState", floor=3)
 
     # ---------------- R1 / R2 -----------------------------------------------
@@ -198,6 +199,55 @@ def check(ctx, run):
                 first = next((100 + k for k in range(1, n + 1) if pat[k - 1]), 0)
                 want = ([100 + k for k in range(1, n + 1) if not (removes and 100 + k == first)], first)
                 run.ob("R3", "%s on %d expectations, predicate %s" % (name, n, list(pat)), f.site, got == want, witness={"list, returned": got}, what=why or ("" if got == want else "expected %s" % (want,)))
+
+    # ---------------- R13 ---------------------------------------------------
+    def fold_ec(meth, env, hooks=None, nparams=None):
+        fs = [g for g in prog.fns(EC + "::" + meth) if nparams is None or len(g.params) == nparams]
+        f = fs[0]
+        run.analysed(f)
+        ev = Evaluator(prog, f, env=env, calls=string_hooks(hooks or {}))
+        ev.pass_object = True
+        ev.run_blocks(f.entry, max_steps=400)
+        return getattr(ev, "ret", None), ev.env, f
+    try:
+        bad = None
+        for spec, mine, asked in itertools.product((0, 1), (0, 700), (0, 700, 800)):
+            f0 = prog.fn(EC + "::relatesToObject")
+            r, env_, f = fold_ec("relatesToObject", {"isSpecificObjectExpected_": spec, "objectPtr_": mine, f0.params[0]["name"]: asked})
+            want = 1 if (not spec or mine == asked) else 0
+            if r != want and bad is None:
+                bad = "specific object expected=%d, expected object %s, call on object %s: relates=%s, expected %d" % (spec, mine or "NULL", asked or "NULL", r, want)
+        run.ob("R13", "relatesToObject folded over (specific?, expected object, object of the call) incl. NULL objects", f.site, bad is None, witness=bad or "12 cases",
+               what="" if bad is None else "an expectation bound to one object (NULL is an object too) matches calls on another, or an unbound one does not match: " + bad)
+        bad = None
+        for ptr in (0, 700):
+            f0 = prog.fn(EC + "::onObject")
+            r, env_, f = fold_ec("onObject", {"isSpecificObjectExpected_": 0, "objectPtr_": 55, "wasPassedToObject_": 1, "this": 9000, f0.params[0]["name"]: ptr})
+            got = (env_.get("isSpecificObjectExpected_"), env_.get("objectPtr_"), env_.get("wasPassedToObject_"))
+            if got != (1, ptr, 0) and bad is None:
+                bad = "onObject(%s) leaves (specific, object, passed) = %s" % (ptr or "NULL", got)
+        run.ob("R13", "onObject records a specific object (also NULL) that the call has not been passed to yet", f.site, bad is None, witness=bad or "2 cases", what=bad or "")
+        bad = None
+        for pm, passed in itertools.product((0, 1), repeat=2):
+            r, env_, f = fold_ec("isMatchingActualCall", {"wasPassedToObject_": passed}, {EC + "::areParametersMatchingActualCall": lambda *a_, pm=pm: pm})
+            if r != (1 if pm and passed else 0) and bad is None:
+                bad = "parameters match=%d, passed to object=%d: %s" % (pm, passed, r)
+        run.ob("R13", "isMatchingActualCall = parameters match and the call was passed to the expected object", f.site, bad is None, witness=bad or "4 cases", what=bad or "")
+        bad = None
+        for m_, ign, fin in itertools.product((0, 1), repeat=3):
+            r, env_, f = fold_ec("isMatchingActualCallAndFinalized", {"ignoreOtherParameters_": ign, "isActualCallMatchFinalized_": fin}, {EC + "::isMatchingActualCall": lambda *a_, m_=m_: m_})
+            if r != (1 if m_ and (not ign or fin) else 0) and bad is None:
+                bad = "matching=%d, ignoring other parameters=%d, finalized=%d: %s" % (m_, ign, fin, r)
+        run.ob("R13", "isMatchingActualCallAndFinalized = matching and (no ignored parameters or finalized)", f.site, bad is None, witness=bad or "8 cases", what=bad or "")
+        bad = None
+        for mine, asked in (("foo", "foo"), ("foo", "fo"), ("foo", "foo2"), ("", ""), ("Foo", "foo")):
+            f0 = prog.fn(EC + "::relatesTo")
+            r, env_, f = fold_ec("relatesTo", {f0.params[0]["name"]: ("str", asked), "functionName_": ("str", mine)}, {EC + "::getName": lambda *a_, mine=mine: ("str", mine)})
+            if r != (1 if mine == asked else 0) and bad is None:
+                bad = "expectation %r asked about %r: %s" % (mine, asked, r)
+        run.ob("R13", "relatesTo compares the function name by content", f.site, bad is None, witness=bad or "5 cases", what=bad or "")
+    except Unknown as u:
+        run.broke("C08.R13: an expectation predicate cannot be folded: %s" % u)
 
     # ---------------- R4 ----------------------------------------------------
     ft = prog.fn(AC + "::failTest")
